@@ -1047,12 +1047,12 @@ fn check_conc(c: &Conc) -> CheckResult {
 
 pub fn run(ctx: &Ctx, rep: &Report) {
     run_exhaustive(ctx, rep, ctx.tier.pick(4, 5));
-    run_prop(ctx, rep, "random", ctx.tier.pick(20_000, 400_000), &|| hist_strategy(), &check_hist);
+    run_prop(ctx, rep, "random", ctx.tier.pick(20_000, 2_000_000), &|| hist_strategy(), &check_hist);
     run_prop(
         ctx,
         rep,
         "pointers",
-        ctx.tier.pick(20_000, 200_000),
+        ctx.tier.pick(20_000, 1_000_000),
         &|| {
             (prop::collection::vec(0u8..TOKENS.len() as u8, 0..8), 0u8..12)
                 .prop_map(|(toks, doc)| PtrCase { toks, doc })
@@ -1060,7 +1060,7 @@ pub fn run(ctx: &Ctx, rep: &Report) {
         },
         &check_ptr,
     );
-    run_prop(ctx, rep, "concurrent", ctx.tier.pick(1_500, 30_000), &|| conc_strategy(), &check_conc);
+    run_prop(ctx, rep, "concurrent", ctx.tier.pick(1_500, 100_000), &|| conc_strategy(), &check_conc);
 }
 
 pub fn replay(sub: &str, case: &Value) -> Result<(), Fail> {
